@@ -164,22 +164,29 @@ theorem negotiateOne_all {P : Sess → Prop} (h : ClosedIO P) (hn : ClosedNeg P)
       · exact hw
       · split <;> exact hw
 
+theorem finishList_all {P : Sess → Prop} (cfg : FCfg) (skipped : List Cached) (s : Sess) (hp : P s) :
+    (finishList cfg skipped s).All P := by
+  unfold finishList
+  split <;> exact hp
+
 theorem select_all {P : Sess → Prop} (h : ClosedIO P) (hn : ClosedNeg P) (cfg : FCfg) (doTLS listReq : Bool)
-    (cache : List Cached) : ∀ orc s, P s → (select cfg doTLS listReq cache orc s).All P := by
+    (cache skipped : List Cached) : ∀ orc s, P s → (select cfg doTLS listReq cache skipped orc s).All P := by
   intro orc
   induction orc with
   | nil =>
     intro s hp
     unfold select
     generalize pickSet cfg doTLS cache s = al
-    split <;> exact hp
+    split
+    · exact finishList_all cfg skipped s hp
+    · exact hp
   | cons e orc' ih =>
     intro s hp
     obtain ⟨id, res⟩ := e
     unfold select
     generalize pickSet cfg doTLS cache s = al
     split
-    · exact hp
+    · exact finishList_all cfg skipped s hp
     · dsimp only
       split
       · exact hp
@@ -210,7 +217,7 @@ theorem negotiateFeatures_all {P : Sess → Prop} (h : ClosedIO P) (hn : ClosedN
       · exact hpl
       · split
         · exact hpl
-        · exact select_all h hn cfg _ _ _ _ s1 hpl
+        · exact select_all h hn cfg _ _ _ _ _ s1 hpl
 
 theorem step_all {P : Sess → Prop} (h : ClosedIO P) (hn : ClosedNeg P) (cfg : FCfg) (fuel : Nat)
     (s : Sess) (hp : P s) : (step cfg fuel s).All P := by
@@ -571,9 +578,9 @@ theorem negotiateOne_clear (c : Cached) (res : NegRes) (st0 : Mask) (s : Sess) (
       rw [hh2] at hpl
       cases u <;> first | exact ⟨rfl, hpl⟩ | exact hpl
 
-theorem select_clear (cfg : FCfg) (doTLS listReq : Bool) (cache : List Cached) (orc : List (Nat × NegRes))
+theorem select_clear (cfg : FCfg) (doTLS listReq : Bool) (cache skipped : List Cached) (orc : List (Nat × NegRes))
     (st0 : Mask) (s : Sess) (hpre : ClearPre st0 s) (hct : CacheTLS cache) (hne : doTLS = true ∨ cache ≠ []) :
-    (select cfg doTLS listReq cache orc s).Both
+    (select cfg doTLS listReq cache skipped orc s).Both
       (fun out s' => out.rw = .tls ∧ Sec s' ∧ NCO s'.trace) (fun s' => NCO s'.trace) := by
   obtain ⟨hal, hids⟩ := pickSet_clear cfg doTLS cache st0 s hpre hct hne
   unfold select
@@ -638,11 +645,11 @@ theorem negotiateFeatures_clear (cfg : FCfg) (st0 : Mask) (hc : Compliant cfg st
             | cons _ _ => rfl
           simp only [Bool.not_true, Bool.and_false, Bool.false_and, Bool.not_false, Bool.true_and, hine, hce,
             Bool.false_eq_true, if_false]
-          exact select_clear cfg false req cache s1.oracle st0 s1 hpl hct (Or.inr hcne)
+          exact select_clear cfg false req cache _ s1.oracle st0 s1 hpl hct (Or.inr hcne)
         | false =>
           simp only [Bool.not_false, Bool.and_true, Bool.true_and, hpl.sec, Bool.not_true, Bool.false_and,
             Bool.false_eq_true, if_false]
-          exact select_clear cfg true req cache s1.oracle st0 s1 hpl hct (Or.inl rfl)
+          exact select_clear cfg true req cache _ s1.oracle st0 s1 hpl hct (Or.inl rfl)
     | _ => exact hpl.nco
 
 theorem step_clear (cfg : FCfg) (st0 : Mask) (hc : Compliant cfg st0) (fuel : Nat) (s : Sess)
